@@ -68,6 +68,8 @@ func generate(prop, tier string, rng *Rng) []Case {
 		return genC04(tier, rng)
 	case "C20":
 		return genC20(tier, rng)
+	case "C18":
+		return genC18(tier, rng)
 	case "C05":
 		return genC05(tier, rng)
 	case "C08":
